@@ -21,8 +21,13 @@ impl Resolver<'_> {
             let in_std = e.span.is_some_and(|s| s.source_id == 0);
             let call_in_user_source = span.is_some_and(|s| s.source_id != 0);
             if in_std && call_in_user_source {
+                // verification hook: (span of the error, span of the call) -> span of the returned error
+                #[cfg(prqlc_verif)]
+                verif_respan(e.span, span, e.clone().with_span(span).span, true);
                 e.with_span(span)
             } else {
+                #[cfg(prqlc_verif)]
+                verif_respan(e.span, span, e.span, false);
                 e
             }
         })
@@ -500,4 +505,14 @@ pub fn expr_of_func(func: Box<Func>, span: Option<Span>) -> Box<Expr> {
         span,
         ..Expr::new(ExprKind::Func(func))
     })
+}
+
+/// verification hook: what `fold_function` does to the span of an error of the inner fold
+#[cfg(prqlc_verif)]
+fn verif_respan(err: Option<Span>, call: Option<Span>, out: Option<Span>, moved: bool) {
+    let j = |s: Option<Span>| s.map(|s| serde_json::json!([s.start, s.end, s.source_id]));
+    log::debug!(
+        "verif:respan {}",
+        serde_json::json!({"err": j(err), "call": j(call), "out": j(out), "moved": moved})
+    );
 }
